@@ -378,14 +378,27 @@ def r14_6(prog, out):
             if ti is None:
                 return False
             aw = [a for a in ti.awaits if any(d in (a.fut_ty or "") for d in ds) and a.select is None]
-            return bool(aw) and ti.cfg.escapes(0, {a.poll_bb for a in aw}, after=False) is None
+            if bool(aw) and ti.cfg.escapes(0, {a.poll_bb for a in aw}, after=False) is None:
+                return True
+            # a whole push round spawned as a task: the dispatches run (and are acked / nacked) inside it
+            return bool(ds & set(prog.cone(sp.task, follow=("call", "closure", "poll", "spawn-joinset", "spawn"))))
         sps = [s for s in bi.spawns if drives(s)]
         for sp in sps:
             found += 1
             key = "dispatch-driven:%s" % prog.short(b.id)
             if sp.kind == "joinset":
                 joins = [a for a in bi.awaits if await_class(prog, bi, a) == "join_next"]
-                if joins and bi.cfg.escapes(sp.bb, {j.poll_bb for j in joins}) is None:
+                # drained: every way on from the spawn passes the `None` answer of join_next (the set is empty), not merely
+                # one join_next -- a JoinSet that is dropped with tasks in it aborts them
+                from mapstate import presence_switches
+                empty_set = set()
+                for j in joins:
+                    if j.result_local is None:
+                        continue
+                    for sw, some_t, none_t in presence_switches(bi, None, "option", local=j.result_local):
+                        if none_t is not None and none_t != "self":
+                            empty_set |= bi.cfg.edge_dominated(sw, none_t)
+                if joins and empty_set and bi.cfg.escapes(sp.bb, empty_set) is None:
                     out.holds(key, bi.loc(sp.bb), "spawned into a JoinSet that is drained before the round ends")
                 else:
                     out.violation(key, bi.loc(sp.bb), "dispatch tasks are spawned into a JoinSet that is dropped without being drained: in-flight pushes are aborted before ack/nack")
@@ -399,3 +412,40 @@ def r14_6(prog, out):
                 out.holds("dispatch-driven:%s" % prog.short(b.id), prog.loc(b.id), "dispatch awaited inline")
     if not found:
         out.violation("dispatch-driven", "", "dispatch futures are created but never polled")
+
+
+@rule("C14", "R14.7", "an actor releases its name in the manager last: everything else registered under the name is removed first", floor=1)
+@rule("C10", "R14.7", "an actor releases its name in the manager last: everything else registered under the name is removed first", floor=1)
+def r14_7(prog, out):
+    """Once the manager map no longer holds the name, a new subscription may be created under it -- on another thread, at once --
+    and register itself for push under the same name.  A by-name clean-up that the *old* incarnation performs after that point
+    (`push_registry.set(name, None)`) hits the new incarnation's entry: the new push subscription exists but is never pushed
+    to.  In every body that removes the actor's name from the manager map, no effect on another registry keyed by that name
+    may come after the removal."""
+    R = roles(prog)
+    A = prog.anchors
+    reg = A.cell("PushRegistryState", "push_subscriptions")
+    n = 0
+    for actor, cell in ((R.sub_actor, A.cell("SubState", "subscriptions")),):
+        for vname in actor.variants:
+            for tid in R.variant_targets(actor, vname):
+                effs = prog.effects(tid)
+                rel = [e for e in effs if e.touches(cell) and e.kind in L.REMOVE_KINDS]
+                if not rel:
+                    continue
+                n += 1
+                bi = prog.info(tid)
+                key = "name-released-last:%s" % prog.short(tid)
+                side = [e for e in effs if e.touches(reg) and e.kind in (L.REMOVE_KINDS | L.INSERT_KINDS | {"clear", "write"})]
+                late = [(r, x) for r in rel for x in side if x.bb != r.bb and bi.cfg.can_reach(r.bb, x.bb)]
+                if late:
+                    r, x = late[0]
+                    out.violation(key, bi.loc(x.bb), "the push registry entry of this name is changed after the name was released in the manager (%s): a subscription "
+                                  "re-created under the name in between loses its registration and is never pushed to" % bi.loc(r.bb),
+                                  ["name released at %s" % bi.loc(r.bb), "registry %s at %s" % (x.kind, bi.loc(x.bb))])
+                elif side:
+                    out.holds(key, bi.loc(rel[0].bb), "the push registration is removed before the name is released")
+                else:
+                    out.holds(key, bi.loc(rel[0].bb), "no other by-name registration is touched here", nontrivial=False)
+    if n == 0:
+        raise CheckBroken("no subscription handler releases the name in the manager")
